@@ -91,3 +91,9 @@ CONFIG = {
         "call held, database entries included (second audit round, defect V1; the concurrent consequence is C19's conc.verify2)",
     ],
 }
+# statement-by-statement translation of small pure Go functions (tools/extract/trans.go -> lean/VGen/TransKeys.lean) and the
+# theorems that the translated definitions equal the model's, for all inputs (lean/VProps/TransKeys.lean)
+CONFIG["lean"] = list(CONFIG["lean"]) + ["VProps.TransKeys"]
+CONFIG["sources"] = list(CONFIG["sources"]) + ['VProps/TransKeys.lean', 'VModel/GoSem.lean']
+CONFIG["theorems"] = list(CONFIG["theorems"]) + ['V.Trans.Keys.wasValidAt_eq_model', 'V.Trans.Keys.wasValidAt_spec']
+CONFIG["trusted"] = list(CONFIG["trusted"]) + ["tools/extract/trans.go: the Go-to-Lean translation of the whitelisted functions and the Go semantics of lean/VModel/GoSem.lean (DESIGN.md §14)"]
